@@ -68,6 +68,7 @@ type Shared struct {
 	overrides map[string]extFn
 	permuteMaps bool
 	exploreSched bool
+	traceAccess  bool
 	schedBudget  int
 }
 
@@ -176,6 +177,11 @@ type Engine struct {
 	killAck     chan struct{}
 	Goroutines  int
 	schedForks  int
+	Notifies    int
+	race        *raceState
+	raceQ       int
+	RaceQueries int
+	raceClass   func(w, o *accessEv) string
 	vfs         map[string][]value // virtual files of the current path (verifVFSPut)
 	lastTrace   string
 	tracesShown int
@@ -766,6 +772,7 @@ func (e *Engine) runPath(entry *ssa.Function) {
 	e.epoch++
 	e.undoOn = true
 	e.resetThreads()
+	e.raceReset()
 	e.vfs = nil
 	e.schedForks = 0
 	e.sol.Push()
@@ -795,6 +802,7 @@ func (e *Engine) runPath(entry *ssa.Function) {
 			}
 		}()
 		e.call(nil, entry, nil)
+		e.raceCheck()
 	}()
 	e.killThreads()
 	if outcome == "ok" {
